@@ -528,7 +528,7 @@ def apply_faults(world, data, faults, fname):
 
                 data = b'\n'.join(lines)
         elif kind in ('write_error', 'crash', 'read_error', 'seek_error',
-                      'rechunk'):
+                      'rechunk', 'nonseekable'):
             continue        # not storage faults
         else:
             raise HarnessError('unknown fault kind %r' % (kind,))
